@@ -86,18 +86,39 @@ impl Model {
                 }
             }
             m.n[k] = m.direct[k].len();
-            // term t is linked to record r iff r is directly annotated to t or to a descendant of t
-            for t in &m.ids {
-                let mut below = m.desc[t].clone();
-                below.insert(*t);
-                let mut l = Set::new();
-                for (r, ts) in &m.direct[k] {
-                    if ts.iter().any(|x| below.contains(x)) {
-                        l.insert(*r);
+            // formulation A (upward): record r is linked to every direct term d and to every ancestor of d
+            let mut up: BTreeMap<u32, Set> = m.ids.iter().map(|t| (*t, Set::new())).collect();
+            for (r, ts) in &m.direct[k] {
+                for d in ts {
+                    if let Some(e) = up.get_mut(d) {
+                        e.insert(*r);
+                    }
+                    if let Some(anc) = m.anc.get(d) {
+                        for a in anc {
+                            if let Some(e) = up.get_mut(a) {
+                                e.insert(*r);
+                            }
+                        }
                     }
                 }
-                m.links[k].insert(*t, l);
             }
+            // formulation B (downward, the statement's wording): term t is linked to record r iff r is
+            // directly annotated to t or to a descendant of t. Quadratic, so only used – as a
+            // cross-audit of A – on small cases.
+            if m.ids.len() <= 200 {
+                for t in &m.ids {
+                    let mut below = m.desc[t].clone();
+                    below.insert(*t);
+                    let mut l = Set::new();
+                    for (r, ts) in &m.direct[k] {
+                        if ts.iter().any(|x| below.contains(x)) {
+                            l.insert(*r);
+                        }
+                    }
+                    assert!(l == up[t], "model self-audit: upward and downward link formulations disagree");
+                }
+            }
+            m.links[k] = up;
         }
         if defaults && m.ids.contains(&1) && m.ids.contains(&118) {
             m.modifier_roots = m.children[&1].iter().copied().filter(|c| *c != 118).collect();
